@@ -1,0 +1,59 @@
+//! Verification hook (only with `--cfg mimium_verif`): lets an external harness drive the
+//! file runner's real recompilation and hot-swap payload preparation without a file
+//! watcher, an audio driver or a compiler subprocess. Purely additive.
+
+use super::*;
+
+/// A `FileRunner` whose program channel is owned by the caller.
+pub struct Recompiler {
+    runner: FileRunner,
+    rx_prog: mpsc::Receiver<ProgramPayload>,
+}
+
+impl Recompiler {
+    /// Mirrors the construction in `run_file`: `compiler` is the context taken from the
+    /// `ExecContext` after the first compilation; the remaining arguments describe the
+    /// program that is currently running (WASM only).
+    pub fn new(
+        compiler: compiler::Context,
+        use_wasm: bool,
+        dsp_state_skeleton: Option<StateTreeSkeleton<StateType>>,
+        ext_fns: Vec<ExtFunTypeInfo>,
+        plugin_fns: Option<mimium_lang::runtime::wasm::WasmPluginFnMap>,
+    ) -> Self {
+        let (tx_prog, rx_prog) = mpsc::channel();
+        let old_program = use_wasm.then_some(OldWasmProgram {
+            dsp_state_skeleton,
+            ext_fns,
+            plugin_fns,
+        });
+        let runner = FileRunner::new(
+            compiler,
+            PathBuf::from("/verif-input.mmm"),
+            Some(tx_prog),
+            use_wasm,
+            old_program,
+            None,
+        );
+        Self { runner, rx_prog }
+    }
+
+    /// `FileRunner::recompile_file_inprocess`; returns what it sent to the audio thread
+    /// (nothing when the source was rejected).
+    pub fn recompile_inprocess(&self, new_content: String) -> Option<ProgramPayload> {
+        self.runner.recompile_file_inprocess(new_content);
+        self.rx_prog.try_recv().ok()
+    }
+
+    /// `FileRunner::prepare_hot_swap_wasm_payload` for module bytes the caller compiled
+    /// (standing in for the compiler subprocess when `dsp_state_skeleton`/`ext_fns` are `None`).
+    pub fn prepare_hot_swap_wasm_payload(
+        &self,
+        bytes: Vec<u8>,
+        dsp_state_skeleton: Option<StateTreeSkeleton<StateType>>,
+        ext_fns: Option<&[ExtFunTypeInfo]>,
+    ) -> Result<ProgramPayload, String> {
+        self.runner
+            .prepare_hot_swap_wasm_payload(bytes, dsp_state_skeleton, ext_fns)
+    }
+}
